@@ -36,6 +36,91 @@ mod ingleg;
 
 const HEADER_LEN: u64 = 22;
 
+// ------------------------------------------- bounded work under a mutant ----
+/// Keeps a run useful when a change of the code breaks almost every case:
+/// generation stops after MAX_FINDINGS failing cases or when the wall budget is
+/// used up, at most MAX_DDMIN cases are delta-debugged (each with at most
+/// DDMIN_RUNS candidate runs / DDMIN_SECS seconds), the others are only cut
+/// behind their first failing step, and the report file is rewritten after
+/// every finding and every REWRITE_EVERY cases.
+pub struct Limits {
+    start: std::time::Instant,
+    budget: std::time::Duration,
+    findings: usize,
+    ddmin_cases: usize,
+    since_write: usize,
+    out: String,
+}
+const MAX_FINDINGS: usize = 10;
+const MAX_DDMIN: usize = 3;
+const DDMIN_RUNS: usize = 100;
+const DDMIN_SECS: u64 = 30;
+const REWRITE_EVERY: usize = 50;
+
+impl Limits {
+    fn new(args: &Args) -> Limits {
+        let dflt = if args.thorough() { 2400 } else { 480 };
+        let secs = args.get("budget-secs").and_then(|s| s.parse::<u64>().ok()).unwrap_or(dflt);
+        Limits { start: std::time::Instant::now(), budget: std::time::Duration::from_secs(secs), findings: 0, ddmin_cases: 0, since_write: 0, out: args.out.clone() }
+    }
+    /// Some(reason) when no further case should be started
+    pub fn stop(&self) -> Option<String> {
+        if self.findings >= MAX_FINDINGS {
+            return Some(format!("stopped generating after {} failing cases", self.findings));
+        }
+        if self.start.elapsed() > self.budget {
+            return Some(format!("wall budget of {} s used up", self.budget.as_secs()));
+        }
+        None
+    }
+    pub fn finding(&mut self, report: &Report) {
+        self.findings += 1;
+        self.since_write = 0;
+        if !self.out.is_empty() {
+            report.write(&self.out);
+        }
+    }
+    pub fn case_done(&mut self, report: &Report) {
+        self.since_write += 1;
+        if self.since_write >= REWRITE_EVERY && !self.out.is_empty() {
+            self.since_write = 0;
+            report.write(&self.out);
+        }
+    }
+    /// Shrinks a failing case within the caps.  `prefix` = the case cut behind
+    /// its first failing step (used as the starting point when it still fails,
+    /// and as the result once MAX_DDMIN cases have been delta-debugged).
+    pub fn shrink<T: Clone>(&mut self, input: &[T], prefix: Vec<T>, fails: &mut dyn FnMut(&[T]) -> bool) -> Vec<T> {
+        let start: Vec<T> = if prefix.len() < input.len() && !prefix.is_empty() && fails(&prefix) { prefix } else { input.to_vec() };
+        if self.ddmin_cases >= MAX_DDMIN || self.start.elapsed() > self.budget {
+            return start;
+        }
+        self.ddmin_cases += 1;
+        let t0 = std::time::Instant::now();
+        let mut runs = 0usize;
+        ddmin(&start, &mut |cand: &[T]| {
+            if runs >= DDMIN_RUNS || t0.elapsed().as_secs() >= DDMIN_SECS {
+                return false;
+            }
+            runs += 1;
+            fails(cand)
+        })
+    }
+}
+
+/// index of the first operation whose output token differs (tokens of the
+/// payload table skipped by the caller)
+pub fn first_diff(a: &str, b: &str) -> usize {
+    let x: Vec<&str> = a.split(';').collect();
+    let y: Vec<&str> = b.split(';').collect();
+    x.iter().zip(y.iter()).position(|(p, q)| p != q).unwrap_or(x.len().min(y.len()))
+}
+
+/// "op 7: ..." -> 7
+pub fn failing_op(msgs: &[String]) -> Option<usize> {
+    msgs.iter().filter_map(|m| m.strip_prefix("op ").and_then(|r| r.split(':').next()).and_then(|n| n.trim().parse::<usize>().ok())).min()
+}
+
 // ------------------------------------------------------------- payloads ----
 struct Pool {
     batches: Vec<RecordBatch>,
@@ -942,8 +1027,18 @@ fn main() {
         "payload pool: {} real record batches, Arrow IPC payload sizes {:?}; the payloads behind the first {} are used by the large-entry family only, which is ORACLE-ONLY (no model comparison: the bit-by-bit Gallina CRC-32 is too slow for tens of megabytes)",
         pool.payloads.len(), pool.payloads.iter().map(|p| p.len()).collect::<Vec<_>>(), pool.n_model));
 
+    let mut limits = Limits::new(&args);
+    // the ingester leg's regression cases first: they are few and must not be starved by the budget
+    for (k, (max, ops)) in ingleg::corpus().into_iter().enumerate() {
+        ingleg::check_case(&rt, &mut model, &mut report, &mut limits, "ingester-corpus", max, &ops, k < 2);
+    }
     let mut discipline_checked = 0u64;
+    let mut stopped: Option<String> = None;
     for (idx, (origin, ops)) in cases.iter().enumerate() {
+        if let Some(why) = limits.stop() {
+            stopped = Some(format!("{} ({} of {} WAL-level cases run)", why, idx, cases.len()));
+            break;
+        }
         let key = encode_ops(ops);
         report.case(if nontrivial(ops) { Some(&key) } else { None });
         report.bump(&format!("origin.{}", origin));
@@ -958,7 +1053,9 @@ fn main() {
                                  "model": model_out.split(';').skip(pool.n_model).collect::<Vec<_>>().join(";")}));
         }
         if differs {
-            let shrunk = ddmin(ops, &mut |cand: &[Op]| {
+            let cut = first_diff(&impl_out, &model_out).saturating_sub(pool.n_model);
+            let prefix: Vec<Op> = ops.iter().take(cut + 1).cloned().collect();
+            let shrunk = limits.shrink(ops, prefix, &mut |cand: &[Op]| {
                 let (i, _, _) = run_impl(&rt, &pool, cand);
                 model.differs(&model_line(&pool, cand), &i).0
             });
@@ -972,10 +1069,20 @@ fn main() {
             }));
         }
         if !bad.is_empty() {
-            let shrunk = ddmin(ops, &mut |cand: &[Op]| !run_impl(&rt, &pool, cand).1.is_empty());
+            let prefix: Vec<Op> = match failing_op(&bad) {
+                Some(at) => ops.iter().take(at + 1).cloned().collect(),
+                None => ops.clone(),
+            };
+            let shrunk = limits.shrink(ops, prefix, &mut |cand: &[Op]| !run_impl(&rt, &pool, cand).1.is_empty());
             let (_, sbad, _) = run_impl(&rt, &pool, &shrunk);
-            report.oracle_violation("", &sbad.join("; "), json!({"case": encode_ops(&shrunk), "original": key}));
+            let what = if sbad.is_empty() { bad.join("; ") } else { sbad.join("; ") };
+            let case = if sbad.is_empty() { key.clone() } else { encode_ops(&shrunk) };
+            report.oracle_violation("", &what, json!({"case": case, "original": key}));
         }
+        if differs || !bad.is_empty() {
+            limits.finding(&report);
+        }
+        limits.case_done(&report);
         // the classifier used by the oracle must not be more generous than op_ok of the model
         if !model.is_null() && !oracle_only && (origin == "corpus" || idx % 7 == 0) {
             let mine = discipline_flags(&rt, &pool, ops);
@@ -996,13 +1103,17 @@ fn main() {
     }
     // the ingester leg: the real Ingester drives the WAL
     let n_ing = if args.thorough() { 2_000 } else { 150 };
-    for (k, (max, ops)) in ingleg::corpus().into_iter().enumerate() {
-        ingleg::check_case(&rt, &mut model, &mut report, "ingester-corpus", max, &ops, k < 2);
-    }
     for k in 0..n_ing {
+        if let Some(why) = limits.stop() {
+            stopped.get_or_insert(format!("{} ({} of {} random ingester cases run)", why, k, n_ing));
+            break;
+        }
         let mut r = rng.fork();
         let (max, ops) = ingleg::gen(&mut r, &mut report);
-        ingleg::check_case(&rt, &mut model, &mut report, "ingester-random", max, &ops, k == 0);
+        ingleg::check_case(&rt, &mut model, &mut report, &mut limits, "ingester-random", max, &ops, k == 0);
+    }
+    if let Some(why) = stopped {
+        report.notes.push(format!("run cut short: {}", why));
     }
     report.notes.push(format!("model calls: {}; discipline classifier cross-checked on {} histories", model.calls, discipline_checked));
     report.write(&args.out);
